@@ -144,6 +144,13 @@ def run(prop, unit, tier, assumptions, samples, not_decided, slow=(), extra_unit
 
     def all_steps(rep, cov):
         return sum((st(rep, cov) or 0) for st in steps)
+    if os.environ.get('VERIF_SKIP_KANI') == '1':
+        # self-test mode only (tools/selftest.py on mutants of the label / jump code): no Kani rows, every row is executed (sampled) instead
+        def skipped_rows():  # noqa: F811
+            return kx.row_names(os.path.join(common.VERIF, u['rows']))
+        steps[-1] = sampled_stand_in_step(unit, skipped_rows)
+        return kprop.run_kani_property(prop, tier, [], assumptions=list(assumptions) + ['VERIF_SKIP_KANI=1 (self-test mode): Kani rows NOT run; all rows executed with seeded operands instead'],
+                                       samples=samples, not_decided=not_decided, extra_steps=all_steps)
     return kprop.run_kani_property(prop, tier, [unit] + list(extra_units), assumptions=assumptions, samples=samples, not_decided=not_decided,
                                    row_filter=row_filter, not_covered=['%s: %s' % nc for nc in not_cov],
                                    method_check={unit: make_method_check(unit)}, extra_steps=all_steps,
